@@ -428,6 +428,7 @@ fn gen_conn(rng: &mut Rng) -> ConnScenario {
         client,
         wplan,
         cap_ns: 600_000_000_000,
+        prelude: vec![],
     }
 }
 
